@@ -157,7 +157,8 @@ func (v *gv) str(s *shape) string {
 	return fmt.Sprintf("#%d", v.I)
 }
 
-var leafTimes = []time.Time{time.Unix(1641092645, 0), time.Unix(1641092645, 500000000)}
+// two instants inside one second, the zero time.Time (an unset struct field) and a far date
+var leafTimes = []time.Time{time.Unix(1641092645, 0), time.Unix(1641092645, 500000000), {}, time.Date(9999, 12, 31, 23, 59, 59, 0, time.UTC)}
 
 // leaf domains: (Go value, reference value)
 func leafValue(k string, i int) (reflect.Value, *ref.V) {
@@ -183,7 +184,7 @@ func leafValue(k string, i int) (reflect.Value, *ref.V) {
 	case "bool":
 		return reflect.ValueOf(i%2 == 0), ref.BoolV(i%2 == 0)
 	case "time":
-		return reflect.ValueOf(leafTimes[i%2]), ref.TimeV(leafTimes[i%2])
+		return reflect.ValueOf(leafTimes[i%4]), ref.TimeV(leafTimes[i%4])
 	}
 	panic("leaf " + k)
 }
@@ -192,6 +193,8 @@ func leafCount(k string) int {
 	switch k {
 	case "int", "float64":
 		return 3
+	case "time":
+		return 4
 	}
 	return 2
 }
